@@ -77,7 +77,7 @@ def exact_eq(got, exp):
     return got.shape == exp.shape and got.dtype == np.float64 and bool((got == exp).all())
 
 
-CLASSES = ["generic", "ints", "pureimag", "axis", "zero", "huge", "tiny"]
+CLASSES = ["generic", "ints", "pureimag", "axis", "zero", "huge", "tiny", "nonpos", "allneg", "neg_diag", "one_neg_entry"]
 
 
 # ------------------------------------------------------------------ cases
@@ -113,6 +113,10 @@ def cases(tier, seed):
             out.append({"key": f"k/cols/{d}", "grp": "k", "m": 1, "k": 2, "n": d})
     for d in (32, 64, 100, 128, 129):
         out.append({"key": f"k/cube/{d}", "grp": "k", "m": d, "k": d, "n": d})
+    # every 0/1 selection matrix with exactly one 1 per row (n^n of them; permutations, staircases, repeated columns, ...) as one factor,
+    # a generic matrix as the other, through every storage path: n = 2, 3 complete, n = 4 complete (256)
+    for n in (2, 3, 4):
+        out.append({"key": f"sel/n={n}", "grp": "sel", "n": n})
     # aliased operands (the same object on both sides) and non-canonical sparse storage
     for n in range(1, 5):
         out.append({"key": f"x/aliased_and_noncanonical/{n}", "grp": "x", "n": n})
@@ -138,6 +142,21 @@ def pattern(cls, m, n, fill):
         return A, -1
     if cls == "zero":
         return np.zeros((m, n, 4), dtype=np.int64), 0
+    if cls == "nonpos":  # no positive component anywhere, exact zeros present
+        A = -np.abs(fill.ints((m, n, 4), -4, 4))
+        A[0, 0, 1] = 0
+        return A, 0
+    if cls == "allneg":  # every component strictly negative
+        return -(np.abs(fill.ints((m, n, 4), -4, 4)) + 1), -1
+    if cls == "neg_diag":  # -I like: sparse planes with only negative stored entries and implicit zeros
+        A = np.zeros((m, n, 4), dtype=np.int64)
+        for i in range(min(m, n)):
+            A[i, i, int(fill.ints((), 0, 3))] = -int(fill.ints((), 1, 3))
+        return A, 0
+    if cls == "one_neg_entry":
+        A = np.zeros((m, n, 4), dtype=np.int64)
+        A[m - 1, 0, 2] = -3
+        return A, 0
     if cls == "huge":
         return fill.ints((m, n, 4), -7, 7), 300
     if cls == "tiny":
@@ -334,6 +353,19 @@ def run_case(case, seed):
             Cexp = O.qmatmul(Ai, Bi).astype(float)
             nontriv += len(PATHS)
             check_product(Ai.astype(float), Bi.astype(float), Cexp, f"mask {G.mask_name(ma)} x {G.mask_name(mb)}", {"grp": "m", "ma": ma, "mb": mb})
+    elif grp == "sel":
+        n = case["n"]
+        fill = G.Fill(seed, stream=hash_tag(case["key"]))
+        Gi = fill.ints((n, n, 4), -3, 3)
+        Gi[Gi == 0] = 2
+        for cols in itertools.product(range(n), repeat=n):
+            Si = np.zeros((n, n, 4), dtype=np.int64)
+            for i, c in enumerate(cols):
+                Si[i, c, 0] = 1
+            for label, Ai, Bi in ((f"G x S{cols}", Gi, Si), (f"S{cols} x G", Si, Gi), (f"S{cols}^T x G", np.ascontiguousarray(Si.transpose(1, 0, 2)), Gi)):
+                Cexp = O.qmatmul(Ai, Bi).astype(float)
+                nontriv += len(PATHS)
+                check_product(Ai.astype(float), Bi.astype(float), Cexp, label, {"grp": "sel"})
     elif grp == "k":
         m, k, n = case["m"], case["k"], case["n"]
         fill = G.Fill(seed, stream=hash_tag(case["key"]))
